@@ -4,7 +4,10 @@ package harness
 
 import (
 	"bytes"
+	"context"
 	"fmt"
+	"github.com/ipfs/go-unixfsnode/file"
+	dagpb "github.com/ipld/go-codec-dagpb"
 	"io"
 	"testing"
 
@@ -57,7 +60,7 @@ func genFileOrHand(t *rapid.T, minLen, maxLen int) *fileCase {
 		if minLen > 1 {
 			mc = 3
 		}
-		return genHandFileDAGOpt(t, handOpts{NoEmpty: true, MinChunk: mc})
+		return genHandFileDAGOpt(t, handOpts{NoEmpty: true, MinChunk: mc, SpareBlockSize: true})
 	}
 	return genFileDAG(t, minLen, maxLen)
 }
@@ -98,9 +101,26 @@ func TestC05_P_FileRange(t *testing.T) {
 			fc.St.FailReadAt = faultAt
 		}
 		var got []byte
+		// mostly through Reify; sometimes through the file package's constructor handed the root block decoded into a
+		// generic (basicnode) tree instead of the typed dag-pb node - the constructor takes any ipld.Node
+		viaGeneric := rapid.IntRange(0, 4).Draw(t, "genericRoot") == 0
 		must(t, "lazy range read", func() {
 			var rn datamodel.Node
-			rn, err = unixfsnode.Reify(ipld.LinkContext{}, pn, ls)
+			if viaGeneric {
+				raw, _ := fc.St.Get(fc.Root)
+				nb := basicnode.Prototype.Any.NewBuilder()
+				if fc.Root.Prefix().Codec != codecDagPB {
+					viaGeneric = false
+				} else if err = dagpb.Decode(nb, bytes.NewReader(raw)); err != nil {
+					return
+				}
+				if viaGeneric {
+					rn, err = file.NewUnixFSFile(context.Background(), nb.Build(), ls)
+				}
+			}
+			if !viaGeneric {
+				rn, err = unixfsnode.Reify(ipld.LinkContext{}, pn, ls)
+			}
 			if err != nil {
 				return
 			}
